@@ -71,9 +71,10 @@ def const(py):
 
 
 class Obligation:
-    __slots__ = ('name', 'verdict', 'time', 'model', 'path', 'line', 'backend', 'detail')
+    __slots__ = ('name', 'verdict', 'time', 'model', 'path', 'line', 'backend', 'detail', 'reason')
 
     def __init__(self, name, verdict, t, model, path, line, backend='z3', detail=''):
+        self.reason = ''
         self.name = name
         self.verdict = verdict     # 'proved' | 'refuted' | 'unknown'
         self.time = t
@@ -84,6 +85,38 @@ class Obligation:
         self.detail = detail
 
 
+_QCACHE = {}
+
+
+def has_quantifier(t):
+    """Does the formula contain a quantifier? (memoised on the AST id; iterative walk)"""
+    tid = t.get_id()
+    r = _QCACHE.get(tid)
+    if r is not None and r[0].eq(t):
+        return r[1]
+    seen = set()
+    todo = [t]
+    found = False
+    while todo:
+        x = todo.pop()
+        xid = x.get_id()
+        if xid in seen:
+            continue
+        seen.add(xid)
+        if z3.is_quantifier(x):
+            if not x.is_lambda():
+                found = True
+                break
+            todo.append(x.body())     # an array lambda (pointwise frame): not a quantified fact
+            continue
+        if z3.is_app(x):
+            todo.extend(x.children())
+    if len(_QCACHE) > 50000:
+        _QCACHE.clear()
+    _QCACHE[tid] = (t, found)     # the term is kept alive, so its id cannot be reused
+    return found
+
+
 class PathCtx:
     """State of one symbolic execution path (rebuilt from scratch per path)."""
 
@@ -92,6 +125,10 @@ class PathCtx:
         self.pos = 0
         self.solver = z3.Solver()
         self.solver.set('timeout', feas_timeout_ms)
+        self.qf = z3.Solver()     # quantifier-free facts only: branch feasibility
+        self.qf.set('timeout', feas_timeout_ms)
+        self.qf_ver = 0
+        self.feas_cache = {}
         self.timeout_ms = timeout_ms
         self.feas_timeout_ms = feas_timeout_ms
         self.pc = []
@@ -107,6 +144,8 @@ class PathCtx:
         self.guards = []          # guards of the speculative branches being executed
         self.speculating = 0
         self.alts = []            # alternative prefixes discovered on this path
+        self.local_fresh = {}     # containers allocated on this path: str(ref) -> ref
+        self.escaped = set()      # str(ref) of references that were stored or passed on
         self.trace = []
         self.assume(self.next0 >= 1)
 
@@ -132,6 +171,9 @@ class PathCtx:
             self.fact_ids.add(cid)
             self.pc.append(c)
             self.solver.add(c)
+            if not has_quantifier(c):
+                self.qf.add(c)
+                self.qf_ver += 1
             return
         if z3.is_eq(c) and c.arg(0).sort() == z3.StringSort():
             a, b = z3.simplify(c.arg(0)), z3.simplify(c.arg(1))
@@ -150,6 +192,22 @@ class PathCtx:
                 self.fact_ids.add(ch.get_id())
         self.pc.append(c)
         self.solver.add(c)
+        if not has_quantifier(c):
+            self.qf.add(c)
+            self.qf_ver += 1
+
+    def feasible(self, cond):
+        """May `cond` hold on this path?  Asked of the quantifier-free part of the path condition
+        only (an over-approximation: a path that only the quantified facts rule out is explored
+        anyway, and every obligation on it is still checked against the full path condition)."""
+        key = (self.qf_ver, cond.get_id())
+        hit = self.feas_cache.get(key)
+        if hit is not None and hit[0].eq(cond):
+            return hit[1]
+        r = self.qf.check(cond)          # as an assumption: the solver state stays incremental
+        ans = r != z3.unsat
+        self.feas_cache[key] = (cond, ans)
+        return ans
 
     def check(self, extra=None, timeout=None):
         s = self.solver
@@ -180,8 +238,8 @@ class PathCtx:
         if self.speculating:
             # inside a speculative (to-be-merged) branch: no forking, no decision recorded
             g = z3.And(*self.guards) if self.guards else z3.BoolVal(True)
-            can_t = self.check(z3.And(g, cond)) != z3.unsat
-            can_f = self.check(z3.And(g, z3.Not(cond))) != z3.unsat
+            can_t = self.feasible(z3.And(g, cond))
+            can_f = self.feasible(z3.And(g, z3.Not(cond)))
             if can_t and can_f:
                 raise SpecAbort()
             if not can_t and not can_f:
@@ -193,8 +251,8 @@ class PathCtx:
             if d == 'M':
                 raise Unsupported('decision replay out of step (merge marker at a fork)')
         else:
-            can_t = self.check(cond) != z3.unsat
-            can_f = self.check(z3.Not(cond)) != z3.unsat
+            can_t = self.feasible(cond)
+            can_f = self.feasible(z3.Not(cond))
             if can_t and can_f:
                 d = True
                 self.alts.append(self.decisions[:self.pos] + [False])
